@@ -435,6 +435,24 @@ def run(F, R, tier):
     BYTES = {"std::string::String::as_bytes", "core::str::<impl str>::as_bytes", "core::str::<impl str>::bytes", "std::string::String::into_bytes"}
     R.ob("representation", "encode_utf8 emits the string's bytes (as_bytes / bytes / into_bytes)", bool(BYTES & callees("encode_utf8")), str(sorted(BYTES & callees("encode_utf8"))))
     R.ob("representation", "chars splits by char (str::chars)", "core::str::<impl str>::chars" in callees("chars"), "")
+    # sort(a) is a non-decreasing permutation *under the language's own ordering of values*: the sort is std's, by Object's Ord
+    # (`sort()` / `sort_by(|a, b| a.cmp(b))`), never by a derived key (an f64 image of an i64 merges neighbours above 2^53)
+    gs_ = F.fn(reg.get("sort", ""))
+    if gs_ is not None:
+        sb_ = H.normal(F, H.body_of(gs_))
+        sorts = [c for c in H.walk(sb_) if c.get("k") == "mcall" and c["m"].startswith("sort")]
+        def own_order(c):
+            if c["m"] in ("sort", "sort_unstable"):
+                return True
+            if c["m"] in ("sort_by", "sort_unstable_by") and c.get("args") and H.strip(c["args"][0]).get("k") == "closure":
+                cl = H.strip(c["args"][0])
+                ps_ = [q.get("id") for q in cl.get("params", []) if q.get("k") == "bind"]
+                bd = H.strip(cl["body"])
+                return len(ps_) == 2 and bd.get("k") == "mcall" and bd["m"] in ("cmp",) and H.local_id(H.strip(bd["recv"])) == ps_[0] and \
+                    len(bd.get("args", [])) == 1 and H.local_id(H.strip(bd["args"][0])) == ps_[1]
+            return False
+        R.ob("representation", "sort orders the values by their own ordering (no derived key)", len(sorts) >= 1 and all(own_order(c) for c in sorts),
+             str([H.render(c)[:60] for c in sorts]), F.loc(gs_))
     R.ob("representation", "join appends chars (String::push)", "std::string::String::push" in callees("join"), "")
     # int(str(n)) == n and float(str(x)) == x need the text to be parsed in the number's own type: a detour through
     # another numeric type (an i64 read as f64 and cast back) loses integers above 2^53
